@@ -26,7 +26,7 @@ PACK = 12
 def extra_strings(tier, seed):
     """Seeded random strings beyond the exhaustive length bound."""
     r = vlib.rng(seed, "c18-extra")
-    n, few, lo, hi = (40, 6, 4, 7) if tier == "quick" else (300, 40, 5, 8)
+    n, few, lo, hi = (40, 6, 4, 7) if tier == "quick" else (800, 100, 5, 8)
     seen, out = set(), []
     while len(out) < n:
         s = tuple(r.choice(ALPHA) for _ in range(r.randint(lo, hi)))
@@ -64,6 +64,8 @@ def run(tier, seed):
     chk.assumptions = [
         "Jsonnet string literals denote the intended code points (lexer: C14)",
         "1e20 stands for any integer above every string length (Huge in Strings.tla)",
+        "a call that yields its expected value as one element of an array of 12 calls also yields it alone "
+        "(pass 1); everything not confirmed that way is evaluated alone and judged there",
         "calls the specification leaves undecided (fractional slice/substr/limit arguments, limits below -1, "
         "empty separator / empty `from`, negative `from` with zero length, surrogate or fractional std.char "
         "arguments, splitLimitR -1 on self-overlapping separators) are executed and only checked for crashes",
